@@ -5,6 +5,20 @@ From Muscle Require Import Gen.Consts Gw.GwBase Gw.GwLemmas Gw.FrameModel Gw.Tra
 Import ListNotations.
 Local Open Scope N_scope.
 
+Lemma d_body_size_hdr n enc :
+  n < two32 ->
+  c_MUSCLE_MESSAGE_ENCODING_DEFAULT <= enc <= c_MUSCLE_MESSAGE_ENCODING_END_MARKER - 1 ->
+  d_body_size (le32 n ++ le32 enc) = Some n.
+Proof.
+  intros Hn He. unfold d_body_size.
+  assert (E1 : rd32 (drop 4 (le32 n ++ le32 enc)) = enc).
+  { change 4 with (blen (le32 n)). rewrite drop_app_exact. rewrite <- (app_nil_r (le32 enc)). apply rd32_le32.
+    assert (c_MUSCLE_MESSAGE_ENCODING_END_MARKER < two32) by (vm_compute; reflexivity). lia. }
+  rewrite E1, (rd32_le32 n (le32 enc) Hn).
+  assert (E2 : (c_MUSCLE_MESSAGE_ENCODING_DEFAULT <=? enc) && (enc <=? c_MUSCLE_MESSAGE_ENCODING_END_MARKER - 1) = true) by lia.
+  now rewrite E2.
+Qed.
+
 Section Default.
   Variable max_in : N.     (* the receiver's SetMaxIncomingMessageSize; MUSCLE_NO_LIMIT by default *)
 
@@ -15,14 +29,17 @@ Section Default.
   Proof. unfold d_flat. cbn [snd]. rewrite !blen_app, !blen_le32, f_hs_is_8. lia. Qed.
 
   Lemma d_codec_sync (cs cr : unit) m : True -> d_wfb m ->
-    exists payload enc cr',
-      snd (d_flat cs m) = le32 (blen payload) ++ le32 enc ++ payload /\
-      c_MUSCLE_MESSAGE_ENCODING_DEFAULT <= enc <= c_MUSCLE_MESSAGE_ENCODING_END_MARKER - 1 /\
+    exists hdr payload cr',
+      snd (d_flat cs m) = hdr ++ payload /\ blen hdr = f_hs /\
+      d_body_size hdr = Some (blen payload) /\
       blen payload <= max_in /\ f_hs + blen payload < two32 /\
       d_unflat cr (snd (d_flat cs m)) = (cr', Some m) /\ True.
   Proof.
-    intros _ [Hm Hs]. exists m, c_MUSCLE_MESSAGE_ENCODING_DEFAULT, cr.
-    split; [reflexivity|]. split; [vm_compute; split; discriminate|]. split; auto. split; auto. split; auto.
+    intros _ [Hm Hs].
+    exists (le32 (blen m) ++ le32 c_MUSCLE_MESSAGE_ENCODING_DEFAULT), m, cr.
+    split; [unfold d_flat; cbn [snd]; now rewrite <- app_assoc|]. split; [reflexivity|].
+    split; [apply d_body_size_hdr; [rewrite f_hs_is_8 in Hs; lia|vm_compute; split; discriminate]|].
+    split; auto. split; auto. split; auto.
     unfold d_flat, d_unflat. cbn [snd].
     assert (E1 : rd32 (le32 (blen m) ++ le32 c_MUSCLE_MESSAGE_ENCODING_DEFAULT ++ m) = blen m).
     { apply rd32_le32. rewrite f_hs_is_8 in Hs. lia. }
@@ -35,8 +52,8 @@ Section Default.
   Qed.
 
   Notation d_run := (sys_run fs_queue d_do_output (d_do_input max_in)).
-  Definition d_sys0 := f_sys0 unit unit tt tt.
-  Definition d_rem := fs_rem unit d_flat.
+  Definition d_sys0 := f_sys0 bytes unit unit tt tt.
+  Definition d_rem := fs_rem bytes unit d_flat.
 
   (* For every list of events -- queue a Message, DoOutput(maxBytes) under any write script,
      DoInput(maxBytes) under any read script, in any order -- the Messages handed to the receiver
@@ -44,7 +61,7 @@ Section Default.
   Theorem d_prefix_safety (evs : list (event bytes)) :
     Forall (ev_wf d_wfb) evs -> exists tl, ev_msgs evs = s_dlv (d_run d_sys0 evs) ++ tl.
   Proof.
-    exact (frame_prefix_safety unit unit d_flat d_unflat max_in tt tt d_flat_len (fun _ _ => True) d_wfb I d_codec_sync evs).
+    exact (frame_prefix_safety bytes unit unit d_flat d_unflat d_body_size max_in tt tt d_flat_len (fun _ _ => True) d_wfb I d_codec_sync evs).
   Qed.
 
   Theorem d_completeness (evs : list (event bytes)) :
@@ -52,7 +69,7 @@ Section Default.
     d_rem (s_snd (d_run d_sys0 evs)) = [] -> s_pipe (d_run d_sys0 evs) = [] ->
     s_dlv (d_run d_sys0 evs) = ev_msgs evs.
   Proof.
-    exact (frame_completeness unit unit d_flat d_unflat max_in tt tt d_flat_len (fun _ _ => True) d_wfb I d_codec_sync evs).
+    exact (frame_completeness bytes unit unit d_flat d_unflat d_body_size max_in tt tt d_flat_len (fun _ _ => True) d_wfb I d_codec_sync evs).
   Qed.
 
   Theorem d_fair_completion (evs : list (event bytes)) (rs : list (list (event bytes))) :
@@ -61,7 +78,7 @@ Section Default.
     let st := d_run d_sys0 (evs ++ concat rs) in
     quiet d_rem st /\ s_dlv st = ev_msgs evs.
   Proof.
-    exact (frame_fair_completion unit unit d_flat d_unflat max_in tt tt d_flat_len (fun _ _ => True) d_wfb I d_codec_sync evs rs).
+    exact (frame_fair_completion bytes unit unit d_flat d_unflat d_body_size max_in tt tt d_flat_len (fun _ _ => True) d_wfb I d_codec_sync evs rs).
   Qed.
 
   Theorem d_receiver_idle (evs : list (event bytes)) :
@@ -69,12 +86,12 @@ Section Default.
     d_rem (s_snd (d_run d_sys0 evs)) = [] -> s_pipe (d_run d_sys0 evs) = [] ->
     exists cr', fr_norm unit (s_rcv (d_run d_sys0 evs)) = idle unit cr'.
   Proof.
-    exact (frame_receiver_idle unit unit d_flat d_unflat max_in tt tt d_flat_len (fun _ _ => True) d_wfb I d_codec_sync evs).
+    exact (frame_receiver_idle bytes unit unit d_flat d_unflat d_body_size max_in tt tt d_flat_len (fun _ _ => True) d_wfb I d_codec_sync evs).
   Qed.
 
   (* HasBytesToOutput() = false is exactly "nothing left to write" *)
-  Lemma d_has_bytes_rem (st : fsend unit) ms :
-    fs_SI unit d_flat tt st ms -> fs_has_bytes st = false -> d_rem st = [].
+  Lemma d_has_bytes_rem (st : fsend bytes unit) ms :
+    fs_SI bytes unit d_flat tt st ms -> fs_has_bytes st = false -> d_rem st = [].
   Proof.
     intros _. unfold fs_has_bytes, d_rem, fs_rem. destruct (fs_buf st); [discriminate|].
     destruct (fs_q st); [reflexivity|discriminate].
@@ -88,8 +105,8 @@ Lemma d_feed_split max_in st a b :
   snd (d_feed max_in st a) ++ snd (d_feed max_in (fst (d_feed max_in st a)) b).
 Proof.
   unfold d_feed. rewrite f_feed_app.
-  destruct (f_feed unit d_unflat max_in st a) as [st1 o1]. cbn [fst snd].
-  destruct (f_feed unit d_unflat max_in st1 b) as [st2 o2]. reflexivity.
+  destruct (f_feed bytes unit d_unflat d_body_size max_in st a) as [st1 o1]. cbn [fst snd].
+  destruct (f_feed bytes unit d_unflat d_body_size max_in st1 b) as [st2 o2]. reflexivity.
 Qed.
 
 (* non-vacuity: a 12-byte Message (what-code only) is in the domain for the default limit *)
